@@ -489,7 +489,7 @@ impl OcflStore for S3OcflStore {
         self.ensure_open()?;
 
         let object_root = match self.get_object_root_path(&inventory.id) {
-            Some(object_root) => util::trim_slashes(&object_root).to_string(),
+            Some(object_root) => util::trim_trailing_slashes(&object_root).to_string(),
             None => {
                 if let Some(root) = object_root {
                     util::trim_slashes(root).to_string()
@@ -596,7 +596,7 @@ impl OcflStore for S3OcflStore {
         let object_root = match self.lookup_or_find_object_root_path(object_id) {
             Err(RocflError::NotFound(_)) => return Ok(()),
             Err(e) => return Err(e),
-            Ok(object_root) => util::trim_slashes(&object_root).to_string(),
+            Ok(object_root) => util::trim_trailing_slashes(&object_root).to_string(),
         };
 
         // A storage layout may map an ID to a path outside of the storage root, to a path inside
